@@ -1417,6 +1417,24 @@ Hwrite(int32 access_id, int32 length, const void *data)
             goto done; /* we're finished, wrap things up */
         }              /* end if */
 
+        /* The element grows in place.  A gap between its old end and the write position must read as
+           zeros: the file may hold stale bytes there (e.g. cut off by an earlier Htrunc). */
+        if (access_rec->posn > data_len) {
+            uint8 zeros[512];
+            int32 gap = access_rec->posn - data_len;
+
+            memset(zeros, 0, sizeof(zeros));
+            if (HPseek(file_rec, data_off + data_len) == FAIL)
+                HGOTO_ERROR(DFE_SEEKERROR, FAIL);
+            while (gap > 0) {
+                int32 n = gap > (int32)sizeof(zeros) ? (int32)sizeof(zeros) : gap;
+
+                if (HP_write(file_rec, zeros, n) == FAIL)
+                    HGOTO_ERROR(DFE_WRITEERROR, FAIL);
+                gap -= n;
+            }
+        }
+
         /* Update the DD with the new length. Note argument of '-2' for
            the offset parameter means not to change the offset in the DD. */
         if (HTPupdate(access_rec->ddid, -2, access_rec->posn + length) == FAIL)
